@@ -437,3 +437,101 @@ Proof.
   unfold mgr_step. cbn [fst snd]. destruct k as [k|]; [|reflexivity].
   rewrite nth_upd_nth by exact Hi. destruct (Nat.eqb k i); reflexivity.
 Qed.
+
+(* ------------------------------------------------------------------------------------------ *)
+(** Algebra of upserts on a strictly sorted side, by extensionality of sorted level lists:
+    the resulting *list* (not only the map it represents) is independent of how it was reached. *)
+
+(** last write wins: two upserts at one price act as the second alone *)
+Lemma upsert_single_overwrite s l p a1 a2 : SS s l ->
+  upsert_single s (upsert_single s l (p, a1)) (p, a2) = upsert_single s l (p, a2).
+Proof.
+  intros H. pose proof (upsert_single_SS s l (p, a1) H) as H1.
+  apply (SS_lookup_ext s);
+    [apply upsert_single_SS; exact H1|apply upsert_single_SS; exact H|].
+  intros q. rewrite (lookup_upsert_single s _ (p, a2) q H1). unfold spec_upsert_single at 1.
+  rewrite (lookup_upsert_single s l (p, a1) q H), (lookup_upsert_single s l (p, a2) q H).
+  unfold spec_upsert_single. cbn [fst snd]. destruct (Z.eqb q p); reflexivity.
+Qed.
+
+Lemma upsert_single_idem s l lv : SS s l ->
+  upsert_single s (upsert_single s l lv) lv = upsert_single s l lv.
+Proof. destruct lv as [p a]. apply upsert_single_overwrite. Qed.
+
+(** upserts at distinct prices commute *)
+Lemma upsert_single_comm s l x y : SS s l -> fst x <> fst y ->
+  upsert_single s (upsert_single s l x) y = upsert_single s (upsert_single s l y) x.
+Proof.
+  intros H Hne. pose proof (upsert_single_SS s l x H) as Hx.
+  pose proof (upsert_single_SS s l y H) as Hy.
+  apply (SS_lookup_ext s); [apply upsert_single_SS; exact Hx|apply upsert_single_SS; exact Hy|].
+  intros q. rewrite (lookup_upsert_single s _ y q Hx), (lookup_upsert_single s _ x q Hy).
+  unfold spec_upsert_single.
+  rewrite (lookup_upsert_single s l x q H), (lookup_upsert_single s l y q H).
+  unfold spec_upsert_single.
+  destruct (Z.eqb_spec q (fst y)) as [E1|N1], (Z.eqb_spec q (fst x)) as [E2|N2];
+    try reflexivity. congruence.
+Qed.
+
+(** deleting an absent level is a no-op on the list; inserting a level at an absent price and
+    deleting it again restores the very list *)
+Lemma upsert_single_delete_absent s l p : SS s l -> lookup l p = None ->
+  upsert_single s l (p, 0%Z) = l.
+Proof.
+  intros H Hn. apply (SS_lookup_ext s); [apply upsert_single_SS; exact H|exact H|].
+  intros q. rewrite (lookup_upsert_single s l (p, 0%Z) q H). unfold spec_upsert_single.
+  cbn [fst snd]. destruct (Z.eqb_spec q p) as [E|N]; [subst q; symmetry; exact Hn|reflexivity].
+Qed.
+
+Lemma upsert_single_insert_delete s l p a : SS s l -> lookup l p = None ->
+  upsert_single s (upsert_single s l (p, a)) (p, 0%Z) = l.
+Proof.
+  intros H Hn. rewrite upsert_single_overwrite by exact H.
+  apply upsert_single_delete_absent; assumption.
+Qed.
+
+(** the result of a batch upsert depends only on the batch's action on maps *)
+Lemma upsert_batch_ext s lvs1 lvs2 l :
+  SS s l -> (forall p, spec_upsert (lookup l) lvs1 p = spec_upsert (lookup l) lvs2 p) ->
+  upsert s l lvs1 = upsert s l lvs2.
+Proof.
+  intros H Hext. apply (SS_lookup_ext s); [apply upsert_SS; exact H|apply upsert_SS; exact H|].
+  intros p. rewrite !lookup_upsert by exact H. apply Hext.
+Qed.
+
+(** a heartbeat update (no levels) changes nothing but sequence and time;
+    a snapshot erases all history *)
+Lemma update_empty b sq t :
+  bids (update b (Update sq t [] [])) = bids b /\ asks (update b (Update sq t [] [])) = asks b /\
+  bseq (update b (Update sq t [] [])) = sq /\ btime (update b (Update sq t [] [])) = t.
+Proof. repeat split; reflexivity. Qed.
+
+Lemma snapshot_erases_history b b' sq t bs as_ :
+  update b (Snapshot sq t bs as_) = update b' (Snapshot sq t bs as_).
+Proof. reflexivity. Qed.
+
+Lemma upsert_algebra s l :
+  strict_sorted s l = true ->
+  (forall p a1 a2,
+     upsert_single s (upsert_single s l (p, a1)) (p, a2) = upsert_single s l (p, a2)) /\
+  (forall x y, fst x <> fst y ->
+     upsert_single s (upsert_single s l x) y = upsert_single s (upsert_single s l y) x) /\
+  (forall p, lookup l p = None -> upsert_single s l (p, 0%Z) = l) /\
+  (forall p a, lookup l p = None -> upsert_single s (upsert_single s l (p, a)) (p, 0%Z) = l) /\
+  (forall lvs1 lvs2,
+     (forall p, spec_upsert (lookup l) lvs1 p = spec_upsert (lookup l) lvs2 p) ->
+     upsert s l lvs1 = upsert s l lvs2).
+Proof.
+  rewrite strict_sorted_SS. intros H. repeat split.
+  - intros p a1 a2. apply upsert_single_overwrite; exact H.
+  - intros x y Hne. apply upsert_single_comm; assumption.
+  - intros p Hn. apply upsert_single_delete_absent; assumption.
+  - intros p a Hn. apply upsert_single_insert_delete; assumption.
+  - intros lvs1 lvs2 Hext. apply upsert_batch_ext; assumption.
+Qed.
+
+Lemma heartbeat_and_snapshot b b' sq t bs as_ :
+  (bids (update b (Update sq t [] [])) = bids b /\ asks (update b (Update sq t [] [])) = asks b /\
+   bseq (update b (Update sq t [] [])) = sq /\ btime (update b (Update sq t [] [])) = t) /\
+  update b (Snapshot sq t bs as_) = update b' (Snapshot sq t bs as_).
+Proof. split; [apply update_empty|apply snapshot_erases_history]. Qed.
